@@ -42,6 +42,9 @@ type Case struct {
 	Proto string `json:"proto"`
 	TTL   uint32 `json:"ttl,omitempty"` // tcp: the TemplateTTL of the configuration (udp always runs with 1800 on a frozen clock)
 	Steps []Step `json:"steps"`
+	// Prefill: before the steps, domain 1 receives this many templates (ids 256.., the two-field
+	// layout of the exhaustive alphabet)
+	Prefill int `json:"prefill,omitempty"`
 }
 
 type Stats struct{ AfterReplace, AfterInvalidate, CrossDomain, Accepted, Rejected, Waited bool }
@@ -57,7 +60,7 @@ func TestMain(m *testing.M) {
 	if rp := ev.LoadReplay(); rp != nil {
 		ev.RunReplay(rp, func(c Case) *ev.Failure { return runCase(c, nil) })
 	}
-	rec = ev.New("C04", "histories of template / undecodable-template / data messages over 2 observation domains x 2 template ids x 3 decoding modes x tcp/udp: exhaustive over a 31-symbol alphabet (including 61 s passing on tcp sessions configured with a 60 s template TTL, which must not expire anything) and over a second 14-symbol alphabet (re-announcements differing only in an unknown element's declared length, field counts far beyond the specifiers present, a known octet-array element declared with a fixed length in the other domain) to depth 3 (quick) / 4 (thorough), rapid histories up to length 60 with random templates beyond; non-trivial = a data message is judged after a replacement or an invalidation of its template, or the same id is live in both domains; distinct by hash of the history",
+	rec = ev.New("C04", "histories of template / undecodable-template / data messages over 2 observation domains x 2 template ids x 3 decoding modes x tcp/udp: exhaustive over a 31-symbol alphabet (including 61 s passing on tcp sessions configured with a 60 s template TTL, which must not expire anything) and over a second 19-symbol alphabet (re-announcements differing only in an unknown element's declared length, field counts far beyond the specifiers present, a known octet-array element declared with a fixed length in the other domain) to depth 3 (quick) / 4 (thorough), rapid histories up to length 60 with random templates beyond; non-trivial = a data message is judged after a replacement or an invalidation of its template, or the same id is live in both domains; distinct by hash of the history",
 		"reference codec refipfix and an independent map model of the template table", "verif hooks VerifDecodePacket / VerifTemplates")
 	code := m.Run()
 	rec.Write()
@@ -91,6 +94,14 @@ func (s Step) packet() []byte {
 func runCase(c Case, st *Stats) *ev.Failure {
 	if st == nil {
 		st = &Stats{}
+	}
+	if c.Prefill > 0 {
+		a := []gen.TField{named("sourceIPv4Address", 0), named("protocolIdentifier", 0)}
+		pre := make([]Step, 0, c.Prefill+len(c.Steps))
+		for k := 0; k < c.Prefill; k++ {
+			pre = append(pre, Step{Kind: "tpl", Domain: 1, ID: uint16(256 + k), Fields: a})
+		}
+		c.Steps = append(pre, c.Steps...)
 	}
 	var clk collector.VerifClock
 	var hclk *glue.HClock
@@ -234,6 +245,11 @@ func runCase(c Case, st *Stats) *ev.Failure {
 		if s.Kind == "data" && invalidated[key] {
 			st.AfterInvalidate = true
 		}
+		// the full table comparison is linear in the number of templates: with hundreds of templates
+		// it runs every 512th step and for the last steps
+		if len(model) > 64 && i%512 != 0 && i < len(c.Steps)-4 {
+			continue
+		}
 		if f := compareStored(col, model, unjudged, i, s); f != nil {
 			return f
 		}
@@ -367,6 +383,10 @@ func TestC04(t *testing.T) {
 		{Kind: "tpl", Domain: 1, ID: 256, Fields: A}, {Kind: "data", Domain: 1, ID: 256, Fields: A, Recs: recA},
 		{Kind: "badcount", Domain: 1, ID: 256, Fields: A, Count: 0xFFFF}, {Kind: "badcount", Domain: 1, ID: 256, Fields: B, Count: 0x4000}, {Kind: "badcount", Domain: 1, ID: 256, Fields: A, Count: 3},
 		{Kind: "tpl", Domain: 2, ID: 256, Fields: W}, {Kind: "tpl", Domain: 1, ID: 256, Fields: V}, {Kind: "data", Domain: 1, ID: 256, Fields: V, Recs: recV},
+		// template records with a field count of zero (what RFC 7011 8.1 uses for withdrawals, which the
+		// library does not implement: they are templates without fields), for a live id and for id 2, in
+		// the other domain
+		{Kind: "tpl", Domain: 2, ID: 256}, {Kind: "tpl", Domain: 2, ID: 2},
 	}
 	depth := 3
 	if rec.Thorough() {
@@ -427,6 +447,24 @@ func TestC04(t *testing.T) {
 		rec.Extra("exhaustive_depth", depth)
 		rec.Extra("alphabet_size", len(alphabet))
 		rec.Extra("second_alphabet_size", len(alphabet2))
+	}
+	// every run: one observation domain holding thousands of templates, then a replacement of one of
+	// them and data in the new and in an untouched layout
+	if ev.Shard() <= 1 {
+		for _, proto := range []string{"tcp", "udp"} {
+			c := Case{Mode: "Strict", Proto: proto, Prefill: 5000}
+			c.Steps = append(c.Steps, Step{Kind: "tpl", Domain: 1, ID: 300, Fields: B}, Step{Kind: "data", Domain: 1, ID: 300, Fields: B, Recs: recB},
+				Step{Kind: "data", Domain: 1, ID: 301, Fields: A, Recs: recA}, Step{Kind: "tpl", Domain: 2, ID: 300, Fields: A}, Step{Kind: "data", Domain: 1, ID: 300, Fields: B, Recs: recB})
+			f := runCase(c, nil)
+			rec.Case(ev.Hash(c), true, "many_templates_in_one_domain")
+			if f != nil {
+				if len(f.Msg) > 400 {
+					f.Msg = f.Msg[:400] + "…"
+				}
+				rec.Violation("many_templates", c, f.Msg)
+				t.Fatalf("many templates: %s", f.Msg)
+			}
+		}
 	}
 	ev.Rapid(t, rec, "random", rec.Scale(4000, 2000000), genCase, func(c Case) *ev.Failure { return runRecorded("random", c) })
 }
